@@ -3,7 +3,7 @@ from __future__ import annotations
 import ast
 import z3
 from . import sorts as S
-from .sorts import VNum, VBool, VStr, VSet, VSeq, VOpt, VDict, VTup, VRec, VObj, VFunc, VNone, NONE, VPyList, VTBDict
+from .sorts import VNum, VBool, VStr, VSet, VSeq, VOpt, VDict, VTup, VRec, VObj, VFunc, VNone, NONE, VPyList, VTBDict, VBDict
 from .core import OutOfReach, State, mk_int, to_real, Exec, UNBOUND, VOpaque, Raise, is_concrete_int, concrete_int
 from .loops import eval_clause, eval_clause_value
 
@@ -136,6 +136,8 @@ def coerce(ex, v, sort, st):
         if isinstance(v, VOpt):
             return VOpt(v.isnone, coerce(ex, v.val, sort.inner, st))
         return VOpt(z3.BoolVal(False), coerce(ex, v, sort.inner, st))
+    if isinstance(sort, S.BDictSort) and isinstance(v, VTBDict) and z3.is_false(z3.simplify(v.has)):
+        return VBDict(z3.Empty(S.SeqBallot), z3.Empty(z3.SeqSort(z3.RealSort())))  # `{}` of a Ballot-keyed dict
     if isinstance(sort, S.Dict) and isinstance(v, VTBDict) and z3.is_false(z3.simplify(v.has)):
         return VDict(S.EMPTY_SET, z3.K(S.PyStr, z3.RealVal(0)), sort.val)  # `{}` of a str->number dict
     if isinstance(v, VOpt) and not isinstance(sort, S.Opt):
@@ -239,7 +241,8 @@ def apply_spec(ex, sp, args, st):
     res = S.wrap(sp.ret, app)
     seen = st.facts.unfolded
     key = app.get_id()
-    if not sp.opaque and ex.unfold_depth < ex.max_unfold and key not in seen:
+    opaque = sp.opaque and sp.name not in getattr(ex.ctx, "revealed", ())
+    if not opaque and ex.unfold_depth < ex.max_unfold and key not in seen:
         seen.add(key)
         sub = Exec(ex.ctx, sp.file, contract=None, spec_mode=True)
         sub.unfold_depth = ex.unfold_depth + 1
